@@ -1878,7 +1878,8 @@ class Affine:
         else:
             raise ValueError('The input matrix must be semidefinite.')
 
-        sqrt_mat = np.real(sqrtm(sign*qmat))
+        eigvals, eigvecs = eigh(sign*np.array(qmat, dtype=float))
+        sqrt_mat = (eigvecs * np.sqrt(np.maximum(eigvals, 0))) @ eigvecs.T
         affine = sqrt_mat @ self.reshape(self.size)
 
         if sign == 1:
